@@ -223,6 +223,37 @@ def emit_cpp(prog, opts=None):
             out.append('  if (g_sm.is_flag_active<%s>()) m |= %d;' % (f, 1 << k))
             out.append('  if (VF_FLAG_AND(g_sm, %s)) m |= %d;' % (f, 1 << (8 + k)))
         out.append('  return m;\n}')
+    if opts.get('second'):
+        out.append('// C15: a second machine object that is copy-constructed / assigned / moved from the first')
+        out.append('__attribute__((noinline)) void vf_copy(int mode) {')
+        out.append('  if (mode == 0) { g_sm2 = static_cast<M const&>(g_sm); }')
+        out.append('  else if (mode == 1) { g_sm2.~M(); new (&g_sm2) M(static_cast<M const&>(g_sm)); }')
+        out.append('#if VF_IS_MP11')
+        out.append('  else if (mode == 2) { g_sm2 = std::move(g_sm); }')
+        out.append('  else { g_sm2.~M(); new (&g_sm2) M(std::move(g_sm)); }')
+        out.append('#endif')
+        out.append('}')
+        out.append('__attribute__((noinline)) int vf_ev2(int kind, int p) {\n  switch (kind) {')
+        for k, e in enumerate(prog.events):
+            out.append('    case %d: return (int)g_sm2.process_event(%s(p));' % (k, e))
+        out.append('    default: return -1;\n  }\n}')
+        out.append('__attribute__((noinline)) int vf_id2(int mi, int r) {\n  switch (mi) {')
+        for m in prog.machines:
+            out.append('    case %d: return (int)VF_IDS(%s)[r];' % (m.idx, machine_obj(prog, m, 'g_sm2')))
+        out.append('    default: return -1;\n  }\n}')
+        if opts.get('queue_api'):
+            out.append('#if VF_IS_MP11')
+            out.append('__attribute__((noinline)) void vf_execq2(void) { g_sm2.process_event_pool(); }')
+            out.append('__attribute__((noinline)) int vf_qsize2(void) { return (int)g_sm2.vf_pool_size(); }')
+            out.append('#else')
+            out.append('__attribute__((noinline)) void vf_execq2(void) { g_sm2.execute_queued_events(); }')
+            if opts.get('has_deferred'):
+                out.append('__attribute__((noinline)) int vf_qsize2(void) { return (int)g_sm2.get_message_queue_size() + (int)g_sm2.get_deferred_queue().size(); }')
+            else:
+                out.append('__attribute__((noinline)) int vf_qsize2(void) { return (int)g_sm2.get_message_queue_size(); }')
+            out.append('#endif')
+        out.append('// machine 1 is reset to a fresh object and restarted after having been moved from (must be destructible / assignable)')
+        out.append('__attribute__((noinline)) void vf_reuse_moved_from(void) { g_sm = M(); g_sm.start(); }')
     out.append('__attribute__((noinline)) int vf_is_mp11(void) { return VF_IS_MP11; }')
     # (machine index, back-end state id) -> catalogue state index
     out.append('int vf_sidx(int mi, int id) {\n  switch (mi) {')
@@ -323,12 +354,12 @@ def numbering_checks(prog, tag):
     return out
 
 
-def post_checks(prog, conf, tag):
+def post_checks(prog, conf, tag, idfn='VFN(vf_id)'):
     out = []
     if not conf.started: return out
     for m in conf.active_machines():
         for r, name in enumerate(conf.m[m.name]['active']):
-            out.append('VF_CHECK(VFN(vf_id)(%d, %d) == VFN(vf_sid)(%d), "%s:active-id m%d r%d");' % (m.idx, r, m.states[name].idx, tag, m.idx, r))
+            out.append('VF_CHECK(%s(%d, %d) == VFN(vf_sid)(%d), "%s:active-id m%d r%d");' % (idfn, m.idx, r, m.states[name].idx, tag, m.idx, r))
     return out
 
 
@@ -402,7 +433,7 @@ def step_call(prog, st, decs=None, pay='0'):
     if st[0] == 'ev':
         return pre + '(void)VFN(vf_ev)(%d, %s);' % (prog.events.index(st[1]), st[2] if len(st) > 2 and st[2] != 'P' else pay)
     if st[0] == 'enq': return pre + 'VFN(vf_enq)(%d, %s);' % (prog.events.index(st[1]), st[2] if len(st) > 2 and st[2] != 'P' else pay)
-    if st[0] == 'execq': return pre + 'VFN(vf_execq)();'
+    if st[0] == 'execq': return pre + 'VF_EXECQ();'
     if st[0] == 'exec1': return pre + 'VFN(vf_exec1)();'
     raise ValueError(st)
 
@@ -427,12 +458,13 @@ def active_completion_sites(prog, conf):
     return fixed_guard_sites(prog, conf)[0]
 
 
-def emit_harness(prog, confs, steps, tag, proj=KINDS_ALL, check_result=True, check_post=True, check_flags=False, probe=None, check_introspect=False, check_queue=False,
+def emit_harness(prog, confs, steps, tag, proj=KINDS_ALL, check_result=True, check_post=True, check_flags=False, probe=None, check_introspect=False, check_queue=False, copy_modes=None,
                  extra_pre=None, extra_leaf=None, nsites=None):
     """confs: list of (conf, script).  steps: symbolic step alphabet (list of step descriptors;
     all 'ev' steps are merged into one nondet kind).  Emits harness_p<i> per configuration."""
-    out = ['/* generated by vf/emit.py: oracle tries for %s (%s) */' % (prog.name, tag),
-           '#include "vf_harness.h"']
+    out = ['/* generated by vf/emit.py: oracle tries for %s (%s) */' % (prog.name, tag)]
+    if copy_modes: out.append('#define VF_TWO_MACHINES 1')
+    out.append('#include "vf_harness.h"')
     sites = guard_sites(prog)
     ns = (max(sites) + 1) if sites else 1
     out.append('#define VF_NSITES %d' % ns)
@@ -450,10 +482,17 @@ def emit_harness(prog, confs, steps, tag, proj=KINDS_ALL, check_result=True, che
             def leaf_fn(dec, log, res, post):
                 l = []
                 if check_result: l += result_checks(res, tag)
-                if check_post: l += post_checks(prog, post, tag)
+                if check_post and not copy_modes: l += post_checks(prog, post, tag)
+                if copy_modes:
+                    # the driven machine (original or copy) ends where the reference says; the other one is untouched
+                    l += post_checks(prog, post, tag + ':driven', 'VF_ID_DRIVEN')
+                    l += post_checks(prog, conf, tag + ':other machine changed', 'VF_ID_OTHER')
+                    if check_queue:
+                        l.append('VF_CHECK(VF_QSIZE_DRIVEN() == %d, "%s:pending events of the driven machine");' % (len(post.queue) + len(post.deferred), tag))
+                        l.append('VF_CHECK(VF_QSIZE_OTHER() == %d, "%s:pending events of the other machine changed");' % (len(conf.queue) + len(conf.deferred), tag))
                 if check_flags: l += flag_checks(prog, post, tag)
                 if check_introspect: l += introspect_checks(prog, post, tag)
-                if check_queue: l.append('VF_CHECK(VFN(vf_qsize)() == %d, "%s:number of pending events");' % (len(post.queue) + len(post.deferred), tag))
+                if check_queue and not copy_modes: l.append('VF_CHECK(VFN(vf_qsize)() == %d, "%s:number of pending events");' % (len(post.queue) + len(post.deferred), tag))
                 if extra_leaf: l += extra_leaf(conf, st, dec, log, res, post)
                 return tuple(l)
             trie = build_trie(prog, paths, proj, leaf_fn)
@@ -472,6 +511,18 @@ def emit_harness(prog, confs, steps, tag, proj=KINDS_ALL, check_result=True, che
             out.append('  ' + step_call(prog, st, dec))
         out.append('  vf_in_prefix = 0;')
         for l in post_checks(prog, conf, tag + ':prefix'): out.append('  ' + l)
+        if copy_modes:
+            out.append('  uint32_t cmode = vf_nondet(5); VF_ASSUME(%s);' % ' || '.join('cmode == %d' % cm_ for cm_ in copy_modes))
+            out.append('#ifdef VF_CMODE')
+            out.append('  cmode = VF_CMODE; vf_inputs[5] = cmode;')
+            out.append('#endif')
+            out.append('  VFN(vf_copy)(cmode);')
+            out.append('  vf_which = vf_nondet(6) & 1u;      /* which of the two machines the continuation drives */')
+            out.append('#ifdef VF_WHICH')
+            out.append('  vf_which = VF_WHICH; vf_inputs[6] = vf_which;')
+            out.append('#endif')
+            out.append('  if (cmode >= 2) { vf_which = 1; vf_inputs[6] = 1; }   /* after a move only the target carries the state */')
+            for l in post_checks(prog, conf, tag + ':copy has the configuration of the original', 'VFN(vf_id2)'): out.append('  ' + l)
         if check_flags:
             for l in flag_checks(prog, conf, tag + ':prefix'): out.append('  ' + l)
         if check_introspect:
@@ -503,7 +554,7 @@ def emit_harness(prog, confs, steps, tag, proj=KINDS_ALL, check_result=True, che
             out.append('  if (sel == 0) {')
             allowed = [prog.events.index(s[1]) for s in my_ev]
             out.append('    VF_ASSUME(%s);' % ' || '.join('kind == %d' % k for k in allowed))
-            out.append('    r = (uint32_t)VFN(vf_ev)(kind, P);')
+            out.append('    r = (uint32_t)VF_EV(kind, P);')
             for st, fn, _ in fns:
                 if st[0] == 'ev': out.append('    if (kind == %d) %s(r, P);' % (prog.events.index(st[1]), fn))
             out.append('  }')
@@ -512,11 +563,13 @@ def emit_harness(prog, confs, steps, tag, proj=KINDS_ALL, check_result=True, che
             if st[0] == 'ev': continue
             out.append('  if (sel == %d) { %s %s(0, P); }' % (alt, step_call(prog, st, None, 'P'), fn))
             alt += 1
+        if copy_modes:
+            out.append('  if (cmode >= 2) { VFN(vf_reuse_moved_from)(); VF_CHECK(VFN(vf_id)(0, 0) == VFN(vf_sid)(%d), "%s:moved-from machine reusable"); }' % (prog.root.states[prog.root.regions[0][0]].idx, tag))
         out.append('  VF_WITNESS();')
         out.append('}')
         index.append({'harness': 'harness_p%d' % ci, 'conf': conf_str(conf),
                       'script': [(list(st), dec) for st, dec in script],
-                      'paths': sum(n for _, _, n in fns), 'decs_by_kind': decs_by_kind, 'nalt': nalt, 'has_ev': bool(my_ev)})
+                      'paths': sum(n for _, _, n in fns), 'decs_by_kind': decs_by_kind, 'nalt': nalt, 'has_ev': bool(my_ev), 'copy_modes': list(copy_modes) if copy_modes else None})
         nh += 1
     out.append('#ifndef __CPROVER__')
     out.append('void (*vf_harnesses[])(void) = {%s};' % ', '.join('harness_p%d' % i for i in range(nh)))
